@@ -127,6 +127,11 @@ def check(ctx):
     for k in direct:
         b = prog.bodies[k]
         if b.crate == "acmed" and b.root != RC:
+            from ..util import effective_owner
+            if prog.absorbed(k) and effective_owner(prog, k) <= {RC}:
+                # a new helper used only by request_certificate and inlined there: its acquisitions were checked above
+                # (receiver rule on the helper-transparent view; order rules through the may-acquire summaries)
+                continue
             ctx.fail(L3, "%s:%s" % (b.file, b.line), "lock acquisition outside request_certificate's task body: %s (holder context unknown)" % k,
                      [k.split("::{closure")[0], "foreign-acquisition"])
     check_nonce(ctx)
@@ -229,27 +234,18 @@ def check_registration(ctx):
     rcc = prog.async_body(RC)
     regs = rcc.calls_to("acmed::account::Account::register")
     ctx.floor(L5, "Account::register call in request_certificate", len(regs), 1)
-    # guarded by !new_reg: the block is reachable only through the false edge of a switch on local `new_reg`
-    nr = rcc.locals_named("new_reg")
-    if not nr:
-        ctx.fail(L5, "%s:%s" % (rcc.file, rcc.line), "flag `new_reg` guarding re-registration not found", [RC, "new_reg"])
-    else:
-        from ..util import switches_on, bool_edges
-        edges_true = []
-        for sbb, neg in switches_on(rcc, nr[0]):
-            t, f = bool_edges(rcc, sbb)
-            if neg:
-                t, f = f, t
-            # removing the edge taken when new_reg is FALSE must cut every path to register
-            edges_true.append((sbb, f))
-        ok, hit = unreachable_without(rcc, [c.bb for c in regs], removed_edges=edges_true)
-        ctx.require(L5, ok and edges_true, regs[0].where() if regs else "-",
-                    "Account::register in request_certificate is reachable only when new_reg is false (at most one re-registration per attempt)",
-                    [RC, "reregister-guard"])
-        # and new_reg is set to true after it
-        from ..util import assigns_const_to
-        sets = assigns_const_to(rcc, nr[0], lambda c: c.get("bool") is True)
-        ctx.require(L5, bool(sets), "-", "new_reg is set after re-registration", [RC, "new_reg-set"])
+    # guarded by a one-shot latch (`new_reg` today; found by its role, not its name): register is reachable only through the
+    # latch's false edge, and the latch is set to true after the registration
+    from ..util import latch_flags
+    latches = latch_flags(rcc, [c.bb for c in regs])
+    good = False
+    for l, (sets, tr, fl) in latches.items():
+        ok, hit = unreachable_without(rcc, [c.bb for c in regs], removed_edges=fl)
+        if ok:
+            good = True
+    ctx.require(L5, good, regs[0].where() if regs else "-",
+                "Account::register in request_certificate is reachable only while a latch that is set right after it is still false (at most one re-registration per attempt)",
+                [RC, "reregister-guard"])
 
 
 def check_no_leak(ctx):
